@@ -95,11 +95,12 @@ fn all_values_binade(f: Fmt, be: u64, chunks: u64, stride: u64, offset: u64) -> 
                 }
                 let (m, e) = f.decode(a);
                 let (ad, ae) = mlxcore::exact::expand(m, e);
+                // scientific and positional notation (what `{:e}` and `{}` print)
                 fam::emit_placements(emit, &ad, ae, if ad.len() > 1 { fam::PL_SCI } else { fam::PL_INT }, "RT-exact", mask, Some(a));
                 let (sd, se) = fam::render_sci(f, a, None);
-                fam::emit_placements(emit, &sd, se, if sd.len() > 1 { fam::PL_SCI } else { fam::PL_INT }, "RT-shortest", mask, Some(a));
+                fam::emit_placements(emit, &sd, se, (if sd.len() > 1 { fam::PL_SCI } else { fam::PL_INT }) | fam::PL_POS, "RT-shortest", mask, Some(a));
                 let (sd, se) = fam::render_sci(f, a, Some(if f == F32 { 8 } else { 16 }));
-                fam::emit_placements(emit, &sd, se, if sd.len() > 1 { fam::PL_SCI } else { fam::PL_INT }, "RT-17", mask, Some(a));
+                fam::emit_placements(emit, &sd, se, (if sd.len() > 1 { fam::PL_SCI } else { fam::PL_INT }) | fam::PL_POS, "RT-17", mask, Some(a));
             }
         }));
     }
@@ -109,8 +110,8 @@ fn all_values_binade(f: Fmt, be: u64, chunks: u64, stride: u64, offset: u64) -> 
 pub fn c03(a: &Args) -> (Stats, String) {
     let mut fams: Fams = Vec::new();
     let extra = if a.thorough { 4096 } else { 64 };
-    fams.push(("RT f64: every binade x patterns x {exact, shortest, 17 digits}", fam::boundary_light(F64, extra, a.seed, 1, fam::PL_SCI | fam::PL_INT)));
-    fams.push(("RT f32: every binade x patterns x {exact, shortest, 9 digits}", fam::boundary_light(F32, extra, a.seed, 1, fam::PL_SCI | fam::PL_INT)));
+    fams.push(("RT f64: every binade x patterns x {exact, shortest, 17 digits} in scientific, integer and positional notation", fam::boundary_light(F64, extra, a.seed, 1, fam::PL_SCI | fam::PL_INT | fam::PL_POS)));
+    fams.push(("RT f32: every binade x patterns x {exact, shortest, 9 digits} in scientific, integer and positional notation", fam::boundary_light(F32, extra, a.seed, 1, fam::PL_SCI | fam::PL_INT | fam::PL_POS)));
     let mut jobs: Vec<Job> = Vec::new();
     if a.thorough {
         for be in 0..F32.binades() {
